@@ -20,6 +20,7 @@ import (
 	"path/filepath"
 	"sort"
 	"strings"
+	"sync"
 	"time"
 
 	"github.com/bufbuild/buf/private/bufpkg/bufcas"
@@ -139,6 +140,9 @@ type swarm struct {
 	machine   bool
 	budget    int
 	stalls    bool
+	// cancelRate: one in cancelRate operations of a process is the moment its context is
+	// cancelled (ctrl-C, --timeout): everything it does afterwards may fail, nothing may lie
+	cancelRate int
 }
 
 type policy struct {
@@ -156,6 +160,20 @@ func (p *policy) Decide(s *sched.Sim, op sched.Op) sched.Decision {
 			return sched.Decision{Fault: "machine-crash"}
 		}
 		return sched.Decision{Fault: "proc-crash"}
+	}
+	if sw.cancelRate > 0 && sw.budget > 0 {
+		p.m.cancelMu.Lock()
+		cancel := p.m.cancels[op.Proc]
+		p.m.cancelMu.Unlock()
+		if cancel != nil && s.Tape.Draw("cancel?", sw.cancelRate) == 1 {
+			sw.budget--
+			p.m.cancelMu.Lock()
+			delete(p.m.cancels, op.Proc)
+			p.m.cancelMu.Unlock()
+			cancel()
+			s.Fired("cancel")
+			return sched.Decision{}
+		}
 	}
 	kind := op.Kind
 	if i := strings.Index(kind, ">"); i >= 0 {
@@ -185,23 +203,26 @@ func (p *policy) Decide(s *sched.Sim, op sched.Op) sched.Decision {
 // ---- the simulation ----
 
 type csim struct {
-	tp    *tape.Tape
-	s     *sched.Sim
-	env   *engine.Env
-	u     *modgen.Universe
-	root  string // the cache root: modules/ and commits/
-	dir   string // the module cache directory
-	raw   storage.ReadWriteBucket
-	cdir  string // the commit cache directory
-	craw  storage.ReadWriteBucket
+	tp   *tape.Tape
+	s    *sched.Sim
+	env  *engine.Env
+	u    *modgen.Universe
+	root string // the cache root: modules/ and commits/
+	dir  string // the module cache directory
+	raw  storage.ReadWriteBucket
+	cdir string // the commit cache directory
+	craw storage.ReadWriteBucket
 	// taintedCommit[module index]: its commit file was altered but may still parse
 	taintedCommit map[int]bool
-	hooks *simfs.Hooks
-	table *simlock.Table
-	reg   *registry
-	sw    *swarm
-	tar   bool
-	quiet bool
+	hooks         *simfs.Hooks
+	table         *simlock.Table
+	reg           *registry
+	sw            *swarm
+	// cancels[process name]: cancels the context that process works under
+	cancels  map[string]context.CancelFunc
+	cancelMu sync.Mutex
+	tar      bool
+	quiet    bool
 	// tainted[module index]: tampered in a way that need not be repaired
 	tainted map[int]bool
 	// provided[proc] = modules the process obtained successfully
@@ -236,8 +257,8 @@ type consumed struct {
 	depDigests []string
 	// which parts were obtained without an error
 	haveFiles, haveDeps, haveYAML, haveLock bool
-	yaml  string
-	lock  string
+	yaml                                    string
+	lock                                    string
 }
 
 // consume reads everything a ModuleData offers. Every accessor is tried on its own - an
@@ -687,6 +708,17 @@ func (m *csim) spawnOn(ps *procState, script []action, strict bool) *procResult 
 	store, provider, commitProvider := ps.store, ps.provider, ps.commitProvider
 	res := &procResult{name: name, provided: ps.provided}
 	m.s.Spawn(proc, func(ctx context.Context) {
+		ctx, cancel := context.WithCancel(ctx)
+		defer cancel()
+		// (tasks run freely until their first scheduling point: the registry of cancel functions is locked)
+		m.cancelMu.Lock()
+		m.cancels[proc.Name] = cancel
+		m.cancelMu.Unlock()
+		defer func() {
+			m.cancelMu.Lock()
+			delete(m.cancels, proc.Name)
+			m.cancelMu.Unlock()
+		}()
 		for ai, a := range script {
 			keys := m.u.Keys(a.mods)
 			site := a.kind
@@ -1146,7 +1178,7 @@ func Run(tp *tape.Tape, env *engine.Env) *engine.Outcome {
 	hooks.RenameYield = true
 	verifhook.SetHandler(hooks)
 	defer verifhook.SetHandler(nil)
-	m := &csim{tp: tp, s: s, env: env, hooks: hooks, tainted: map[int]bool{}, counters: map[string]int{}, crashStates: map[string]struct{}{}}
+	m := &csim{tp: tp, s: s, env: env, hooks: hooks, tainted: map[int]bool{}, counters: map[string]int{}, crashStates: map[string]struct{}{}, cancels: map[string]context.CancelFunc{}}
 	u, err := modgen.New(tp, modgen.Options{MaxModules: 4, MaxFiles: 4, AllowB4: true, Extras: true})
 	if err != nil {
 		panic(err)
@@ -1199,6 +1231,9 @@ func Run(tp *tape.Tape, env *engine.Env) *engine.Outcome {
 		if mode >= 3 {
 			sw.crashRate = tape.Pick(tp, "crashrate", []int{40, 15, 80})
 			sw.machine = tp.Draw("machine", 2) == 1
+		}
+		if tp.Draw("cancelmode", 3) == 2 {
+			sw.cancelRate = tape.Pick(tp, "cancelrate", []int{30, 12, 60})
 		}
 	}
 	m.sw = sw
